@@ -18,4 +18,6 @@ CASES = [
          old="        return self._as_observable().pipe(ops.take(count))", new="        return self._as_observable().pipe(ops.take(count=count))")]),
     dict(expect="silent", desc="fluent take: applied form", edits=[dict(file=FIL,
          old="        return self._as_observable().pipe(ops.take(count))", new="        return ops.take(count)(self._as_observable())")]),
+    dict(expect="fire", desc="seed C39-r2/1: fluent reduce drops an explicit None seed", names="F2-forwarding", edits=[dict(file="reactivex/observable/mixins/transformation.py",
+         old="        if seed is NotSet:", new="        if seed is NotSet or seed is None:")]),
 ]
